@@ -34,9 +34,9 @@ TInit == /\ tr \in 1..Len(Traces) /\ l = 1 /\ mustP = {}
          /\ sub = FALSE /\ pc = 0 /\ cbuf = <<>> /\ pbuf = <<>> /\ cpos = 0 /\ ppos = 0 /\ older = {}
          /\ started = {} /\ bad = {} /\ added = {} /\ droppedC = {} /\ ever = {} /\ everP = {}
          /\ allOlder = {} /\ newestL = {} /\ nw = 0 /\ hist = <<>>
-         /\ hold = "off" /\ holdId = NoId /\ listRev = 0
+         /\ hold = "off" /\ holdId = NoId /\ holdAt = -1 /\ listRev = 0
 
-Frame == UNCHANGED <<cat0, sub, pc, cbuf, pbuf, cpos, ppos, older, nw, hist, hold, holdId, listRev>>
+Frame == UNCHANGED <<cat0, sub, pc, cbuf, pbuf, cpos, ppos, older, nw, hist, hold, holdId, holdAt, listRev>>
 
 CollAfter(kind, st) == CASE kind = "new" -> "creating" [] kind = "ok" -> "created" [] kind \in {"fail", "gc"} -> "tombstone"
                          [] kind = "drop" -> "dropping" [] kind = "dropped" -> "dropped" [] OTHER -> st
